@@ -38,7 +38,7 @@ head = ["%d seeded changes kept (each confirmed by me: its demonstration fails w
         "own 415 tests pass with it). First run of the property's quick check: %d reported with a failing input, %d reported by the "
         "broken tie only (`no-failing-input-found`), %d missed. Every missed one (and some of the tie-only ones) led to a strengthening "
         "of the check (last column, §12). All of them were run again against the checks as they stood after round 5, and after rounds 6 and 7 every seed of the "
-        "properties whose checks or drivers changed in those rounds (C02, C04, C06, C07, C12, C13, C14, and C01-f) once more (`bin/seed-recheck`, `seeded/*/recheck.json`; the "
+        "properties whose checks or drivers changed in those rounds (C02, C04, C06, C07, C11, C12, C13, C14, and C01-f) once more (`bin/seed-recheck`, `seeded/*/recheck.json`; the "
         "round-6 and round-7 seeds of the other properties stand with their first run): %d reported with a failing input, %d by the broken tie only (the reason "
         "is in the seed's meta.json `note`), %d missed." % (n['total'], n['first_input'], n['first_tie'], n['missed'], final['input'], final['tie'], final['missed']),
         "",
